@@ -65,7 +65,7 @@ class Rig:
             os.makedirs(d)
         self.caps_ok = caps.drop_dac_caps()
         os.chdir(self.srcdir)
-        self.xsh = load_session(data_dir=self.data, env={"XONSH_DEBUG": 0, "RAISE_SUBPROC_ERROR": False})
+        self.xsh = load_session(data_dir=self.data, env={"XONSH_DEBUG": 0})
         self.execer = get_execer()
         import xonsh.codecache as cc
 
@@ -111,10 +111,12 @@ class Rig:
 
     @staticmethod
     def get_tick(path):
+        """The logical tick of a file, or None when its mtime was not set by the harness (wall clock)."""
         st = os.stat(path)
-        if st.st_mtime_ns % 1_000_000_000:
+        t = st.st_mtime_ns // 1_000_000_000 - BASE
+        if st.st_mtime_ns % 1_000_000_000 or not (-1000 <= t <= 1_000_000):
             return None
-        return st.st_mtime_ns // 1_000_000_000 - BASE
+        return t
 
     def entry_path(self, kind, text=None, data=None):
         """Cache file the implementation uses for the script / for a code string."""
